@@ -48,6 +48,7 @@ type c01Gen struct {
 	objRefs  []string // component schemas that are plain objects (usable in allOf / oneOf)
 	counter  int
 	mapDepth int
+	xgo      int
 	usedType map[string]bool
 }
 
@@ -156,6 +157,9 @@ func (g *c01Gen) memberNames2(k int, forPath, forParam bool) []string {
 		if forParam && paramNameAvoided(n) {
 			continue
 		}
+		if !forParam && strings.EqualFold(n, "item") {
+			continue // probe P21: a property called item inside the object items of an array, without flattening
+		}
 		ok := true
 		for _, x := range normalisations(n) {
 			if !validGoIdent(x) || seen[strings.ToLower(x)] {
@@ -241,6 +245,11 @@ func (g *c01Gen) object(depth int) map[string]any {
 			}
 			if g.r.Intn(14) == 0 {
 				p["deprecated"] = true
+			}
+			if g.r.Intn(14) == 0 {
+				g.xgo++
+				p["x-go-name"] = fmt.Sprintf([]string{"fieldID%dx", "field_name_%dx", "FieldId%dx"}[g.r.Intn(3)], g.xgo)
+				g.feat["ext=x-go-name-on-property"]++
 			}
 		}
 		props[n] = p
@@ -406,6 +415,12 @@ func (g *c01Gen) param(in, name string) map[string]any {
 		p["required"] = true
 	}
 	g.feat["param.in="+in]++
+	if in != "path" && g.r.Intn(7) == 0 {
+		// the Go name given outright, in a spelling the name normalisers rewrite (lower camel, snake case, Id, digits)
+		g.xgo++
+		p["x-go-name"] = fmt.Sprintf([]string{"userID%dx", "request_id_%dx", "UserId%dx", "Renamed%dx", "oauth2Token%dx"}[g.r.Intn(5)], g.xgo)
+		g.feat["ext=x-go-name-on-parameter"]++
+	}
 	if in != "path" && g.r.Intn(8) == 0 && !g.av.IrisOrFiber && len(g.schemas) > 0 {
 		g.feat["param=content-json"]++
 		p["content"] = map[string]any{"application/json": map[string]any{"schema": g.ref()}} // inline objects: probe P5
